@@ -2,7 +2,8 @@
 """Regenerates MANIFEST.json from lib/manifest_data.py (single source, keeps the file valid)."""
 import json, os, sys
 sys.path.insert(0, os.path.dirname(os.path.abspath(__file__)))
-from manifest_data import CHECKS, NOT_APPLICABLE, ENGINES, HOOK_COMMITS, NOTES
+from manifest_data import build
+CHECKS, NOT_APPLICABLE, ENGINES, HOOK_COMMITS, NOTES = build()
 ROOT = os.path.dirname(os.path.dirname(os.path.abspath(__file__)))
 BASE = json.load(open("/root/.vp/BASELINE.json"))["cmd"] if os.path.exists("/root/.vp/BASELINE.json") else ""
 m = {
